@@ -1344,6 +1344,9 @@ func (c *FnCtx) isTracked(fn *ssa.Function) bool {
 func (c *FnCtx) trackCall(st *State, fn *ssa.Function, args []Val) {
 	cnt := c.comp("ghost$calls$"+fn.Name(), "Int")
 	c.heapSet(st, cnt, "(+ "+c.heapGet(st, cnt)+" 1)")
+	// the locks held (and in which acquisition) at the latest call
+	st.heap[c.comp("ghost$calllock$"+fn.Name(), "(Array Int Int)")] = c.sc.Define("calllock", "(Array Int Int)", c.heapGet(st, c.lockComp()))
+	st.heap[c.comp("ghost$callgen$"+fn.Name(), "(Array Int Int)")] = c.sc.Define("callgen", "(Array Int Int)", c.heapGet(st, c.lockGenComp()))
 	for k, a := range args {
 		if a.E == "" {
 			continue
